@@ -125,16 +125,19 @@ pub struct Choices {
     pub avoided: usize,
 }
 
+/// process-wide default for `avoid_zero_width_elems` (set while the corresponding known finding is open)
+pub static AVOID_ZERO_WIDTH_DEFAULT: std::sync::atomic::AtomicBool = std::sync::atomic::AtomicBool::new(false);
+
 impl Choices {
     pub fn compact() -> Self {
-        Self::default()
+        Self::new(vec![])
     }
     pub fn new(bytes: Vec<u8>) -> Self {
         Choices {
             bytes,
             pos: 0,
             nondefault: 0,
-            avoid_zero_width_elems: false,
+            avoid_zero_width_elems: AVOID_ZERO_WIDTH_DEFAULT.load(std::sync::atomic::Ordering::Relaxed),
             avoided: 0,
         }
     }
